@@ -51,7 +51,7 @@ UPDATE_OPS = ["upd_coeffs", "upd_exps", "upd_coord", "upd_exps_inplace", "upd_co
 
 
 def gen_cases(tier, seed):
-    n = 64 if tier == "quick" else 400
+    n = 64 if tier == "quick" else 800
     cases = []
     for i in range(n):
         rng = bases.rng_for("C19", seed, tier, i)
